@@ -10,8 +10,9 @@ Exact model of the genotype-data path of dadi (property C13):
   spectrum                 ──►  S, π, Watterson θ, θ_L, Tajima D, Fst     Spectrum.S / pi / …
   genotype matrix          ──►  the same statistics by direct counting
 
-Text parsing is NOT modelled: strings (alleles, chromosome names) are abstracted to codes whose only use is
-equality, a line is abstracted to the fields the code looks at.  The polarisation logic, the wiring of
+Text parsing is NOT modelled in general: strings (alleles, chromosome names) are abstracted to codes whose only use is
+equality, a line is abstracted to the fields the code looks at.  Exception (round 6): the token-level decisions of the VCF
+reader on FILTER / REF / ALT / INFO (`lineKept`, `lineAa`, `lineSite`) are modelled on the texts, through generated tokens.  The polarisation logic, the wiring of
 `_cached_projection`'s arguments and every closed formula of the statistics are the *generated* definitions of
 Generated/DataDict.lean (namespace `Gen.DD`), regenerated from the source on every run.
 Core Lean only (the driver executes these definitions); the theorems are in Props/C13.lean.
@@ -245,6 +246,54 @@ def siteKept (filt : Bool) (st : Site) : Bool :=
 def siteSnp (st : Site) (calls : List (Nat × Nat)) : Snp :=
   { chrom := st.chrom, pos := st.pos, info := 0, nseg := 2, a1 := st.ref, a2 := st.alt,
     out := some (vcfOutgroup st.aa), calls := calls }
+
+/-! ### the text level of a VCF data line (round 6): the reader's token-level decisions, through the GENERATED tokens
+
+    FILTER / REF / ALT / INFO are texts (`List Char`).  Which FILTER texts let the line through (`vcfFilterAccept`), which REF / ALT
+    make it a SNP line (`vcfSnpBases`, `vcfAllelesUpper`), which INFO fields are read as the ancestral allele (`vcfAaPrefixes`), how
+    the value is extracted (`vcfAaExtract`) and which values are usable (`vcfAaBases`, else `vcfAaMissing`) are the generated
+    definitions; here only the control flow of the loop (`for field in info: if <recognised>: …; break  else: '-'`). -/
+
+structure VcfText where
+  filter : List Char
+  ref : List Char
+  alt : List Char
+  info : List Char
+deriving Repr, DecidableEq
+
+/-- `field.startswith(p)` for one of the recognised prefixes -/
+def aaRecognised (f : List Char) : Bool := vcfAaPrefixes.any fun p => p.isPrefixOf f
+
+/-- the outgroup allele a recognised field yields (`none` = the extraction raises IndexError) -/
+def aaOfField (f : List Char) : Option (List Char) :=
+  (vcfAaExtract f).map fun v => if vcfAaBases.contains v then v else vcfAaMissing
+
+/-- the loop over the INFO fields: the first recognised field decides, no recognised field = missing -/
+def vcfAaOf (info : List (List Char)) : Option (List Char) :=
+  match info.find? aaRecognised with
+  | none => some vcfAaMissing
+  | some f => aaOfField f
+
+def vcfInfoFields (info : List Char) : List (List Char) := pySplit vcfInfoSep info
+
+def alleleText (s : List Char) : List Char := if vcfAllelesUpper then pyUpper s else s
+
+/-- does the line enter the dictionary: FILTER accepted (if asked), REF and ALT single bases -/
+def lineKept (filt : Bool) (l : VcfText) : Bool :=
+  !(filt && !vcfFilterAccept.contains l.filter) && vcfSnpBases.contains (alleleText l.ref) && vcfSnpBases.contains (alleleText l.alt)
+
+/-- `snp_dict['outgroup_allele']` of the line -/
+def lineAa (l : VcfText) : Option (List Char) := vcfAaOf (vcfInfoFields l.info)
+
+/-- the allele codes of the abstract `Site`: '-' ↦ 0 (`dash`), A C G T ↦ 1..4, any other text ↦ 5 -/
+def baseCode (s : List Char) : Nat :=
+  if s = "-".toList then 0 else if s = "A".toList then 1 else if s = "C".toList then 2 else if s = "G".toList then 3
+  else if s = "T".toList then 4 else 5
+
+/-- the abstract line the rest of the model works with, read off the text (sample columns given) -/
+def lineSite (chrom pos : Nat) (l : VcfText) (inds : List Indiv) : Site :=
+  { chrom := chrom, pos := pos, pass := vcfFilterAccept.contains l.filter, ref := baseCode (alleleText l.ref),
+    alt := baseCode (alleleText l.alt), aa := (lineAa l).map baseCode, inds := inds }
 
 /-! ### subsampling branch -/
 
